@@ -651,7 +651,7 @@ def is_wrapper(name):
     return False
 
 
-MAXPATH = 14
+MAXPATH = 24
 # enum aggregates that leave an 'in <Variant>' token on origin paths
 ENUM_AGG_TOKENS = {'std::result::Result', 'std::option::Option', 'std::ops::ControlFlow'}
 
